@@ -261,6 +261,61 @@ def build(tier):
     P.lib[AU + "preprocess_observation"] = ma_pre          # at CALL sites only (the function itself is verified above from its own body)
     P.lib["agilerl.algorithms.ippo.concatenate_tensors"] = lambda ex, st, a, k: ("concatenated", list(a[0]))
     P.lib[AU + "concatenate_tensors"] = lambda ex, st, a, k: ("concatenated", list(a[0]))
+    # ---- outputs of a shared policy go back to the agent they belong to: the policy sees the agents' batches concatenated agent-major
+    # (row a*E + e), disassemble_homogeneous_outputs must hand row a*E + e to agent a as its row e (E symbolic, 2 and 3 agents, width 1 and 2)
+    OUT = z3.Function("policy_output", I_, I_, Re_)
+    EV = z3.Int("vect_dim")
+    e_g = z3.Int("e!generic")
+    P.axioms += [EV >= 1]
+    P.lib.setdefault("numpy.reshape", lambda ex, st, a, k: a[0].reshape(ex, st, list(a[1])))
+    for n_agents in (2, 3):
+        for width in (1, 2):
+            members = [f"agent_{i}" for i in range(n_agents)]
+
+            def dis_self(ex, st, label, members=members):
+                o = Obj(MA_BASE, label="self")
+                o.fields.update(dict(shared_agent_ids=["agent"], homogeneous_agents={"agent": list(members)}))
+                return o
+
+            def dis_post(res, members=members, width=width):
+                if not (isinstance(res, dict) and list(res.keys()) == members):
+                    return z3.BoolVal(False)
+                out = []
+                for i, m in enumerate(members):
+                    r = res[m]
+                    if not (isinstance(r, ND) and len(r.shape) == 2 and ndt.same_dim(r.shape[0], EV) and ndt.cp(r.shape[1]) == (width, None)):
+                        return z3.BoolVal(False)
+                    out += [z3.Implies(z3.And(0 <= e_g, e_g < EV), z3ify(r.at([e_g, j])) == OUT(i * EV + e_g, j)) for j in range(width)]
+                return z3.And(*out)
+            tag = f"{n_agents}-agents-width{width}"
+            P.specns["dis_post_" + tag.replace("-", "_")] = dis_post
+            P.contract(MA_BASE + ".disassemble_homogeneous_outputs", variant=tag,
+                       params={"self": dis_self, "vect_dim": (lambda ex, st, l: EV),
+                               "homo_outputs": (lambda ex, st, l, n=n_agents, w=width: {"agent": ND([n * EV, w], lambda idx: OUT(z3ify(idx[0]), z3ify(idx[1])), "policy_out", True)})},
+                       requires=[], frame_fields=False, ensures=[f"dis_post_{tag.replace('-', '_')}(result)"], replay="c15:values")
+
+    # the way in: assemble_homogeneous_outputs stacks the agents' (E, w) arrays in the order of homogeneous_agents - whatever the key order
+    # of the dict - into rows a*E + e
+    AOUT = z3.Function("agent_output", I_, I_, I_, Re_)
+    P.lib.setdefault("numpy.stack", ndt.stack)
+    for n_agents in (2, 3):
+        members = [f"agent_{i}" for i in range(n_agents)]
+        for otag, order in (("given-order", members), ("reversed", members[::-1])):
+            def asm_post(res, members=members):
+                if not (isinstance(res, dict) and list(res.keys()) == ["agent"]):
+                    return z3.BoolVal(False)
+                r = res["agent"]
+                if not (isinstance(r, ND) and len(r.shape) == 2 and ndt.same_dim(r.shape[0], len(members) * EV) and ndt.cp(r.shape[1]) == (2, None)):
+                    return z3.BoolVal(False)
+                return z3.And(*[z3.Implies(z3.And(0 <= e_g, e_g < EV), z3ify(r.at([i * EV + e_g, j])) == AOUT(i, e_g, j)) for i in range(len(members)) for j in range(2)])
+            tag = f"{n_agents}-agents-{otag}"
+            P.specns["asm_post_" + tag.replace("-", "_")] = asm_post
+            P.contract(MA_BASE + ".assemble_homogeneous_outputs", variant=tag,
+                       params={"self": (lambda ex, st, l, members=members: (lambda o: (o.fields.update(dict(shared_agent_ids=["agent"], homogeneous_agents={"agent": list(members)})), o)[1])(Obj(MA_BASE, label="self"))),
+                               "vect_dim": (lambda ex, st, l: EV),
+                               "agent_outputs": (lambda ex, st, l, order=order: {m: ND([EV, 2], (lambda idx, i=int(m.split("_")[1]): AOUT(i, z3ify(idx[0]), z3ify(idx[1]))), m, True) for m in order})},
+                       requires=[], frame_fields=False, ensures=[f"asm_post_{tag.replace('-', '_')}(result)"], replay="c15:values")
+
     def wiring_eval_mode():
         """the value / greedy action of ONE observation must not depend on the rest of the batch: every single-agent get_action puts the
         networks it evaluates into eval mode before the forward pass (BatchNorm in the default image encoders) - AST obligation.
@@ -288,5 +343,5 @@ def build(tier):
     P.assumptions += ["dimension values are positive integers; ranks 0..3 enumerated, dimension values symbolic"]
     P.uncovered += ["element maps of Dict/Tuple observations (member-wise recursion) and of MultiBinary - native adapter, bounded",
                     "greedy action / value independence of batch composition (needs row-wise nn forward)",
-                    "disassembly of homogeneous agents' outputs back per agent (native)"]
+                    "assemble / disassemble_homogeneous_outputs with agents missing from the dict"]
     return P
